@@ -23,7 +23,9 @@ class Chunked(Suite):
 
     def corpus(self):
         return [dict(n=3, xs=[], kind='list'), dict(n=1, xs=[5], kind='gen'), dict(n=0, xs=[1, 2], kind='list'),
-                dict(n=2, xs=[1, 2, 3, 4], kind='str'), dict(n=2, xs=[1, 2, 3, 4, 5], kind='gen')]
+                dict(n=2, xs=[1, 2, 3, 4], kind='str'), dict(n=2, xs=[1, 2, 3, 4, 5], kind='gen'),
+                dict(n=2, xs=[1, 2, 3, 4, 5], kind='list', keep=True), dict(n=3, xs=[1, 2, 3], kind='gen', keep=True),
+                dict(n=1, xs=[7, 8, 9], kind='tuple', keep=True), dict(n=4, xs=list(range(40, 52)), kind='str', keep=True)]
 
     def gen(self, rng, tier):
         out = []
@@ -31,7 +33,7 @@ class Chunked(Suite):
             n = rng.choice([0, 1, 1, 2, 2, 3, 4, 5, 7, 10])
             ln = rng.choice([0, 1, n, 2 * n, 3 * n, max(n - 1, 0), n + 1, 2 * n + 1, rng.randrange(0, 60)])
             out.append(dict(n=n, xs=[rng.randrange(32, 127) for _ in range(ln)],
-                            kind=rng.choice(['list', 'gen', 'str', 'tuple'])))
+                            kind=rng.choice(['list', 'gen', 'str', 'tuple']), keep=rng.random() < 0.3))
         return out
 
     def run_impl(self, case):
@@ -41,7 +43,12 @@ class Chunked(Suite):
               'str': lambda: ''.join(chr(x) for x in xs)}[case['kind']]()
         import itertools
         # never more chunks than items (+ slack): a chunker that does not stop must not hang the check
-        res = [list(c) for c in itertools.islice(chunked(it, case['n']), len(xs) + 4)]
+        if case.get('keep'):
+            # a consumer that keeps every chunk it was handed until the end (looking ahead, batching the batches)
+            kept = list(itertools.islice(chunked(it, case['n']), len(xs) + 4))
+            res = [list(c) for c in kept]
+        else:
+            res = [list(c) for c in itertools.islice(chunked(it, case['n']), len(xs) + 4)]
         if case['kind'] == 'str':
             res = [[ord(ch) for ch in c] for c in res]
         return res
@@ -97,9 +104,19 @@ class Custom(Exception):
     pass
 
 
+class FalsyError(Exception):        # an exception object that is false in a truth test
+    def __bool__(self):
+        return False
+
+
+class EmptyError(Exception):        # an exception object with a length of zero
+    def __len__(self):
+        return 0
+
+
 # what f raises: the property speaks of "an exception raised by f", whatever its class
 EXC = {'KeyError': KeyError, 'StopIteration': StopIteration, 'Custom': Custom, 'OSError': OSError,
-       'RuntimeError': RuntimeError, 'NotImplementedError': NotImplementedError}
+       'RuntimeError': RuntimeError, 'NotImplementedError': NotImplementedError, 'FalsyError': FalsyError, 'EmptyError': EmptyError}
 
 
 class PMap(Suite):
